@@ -56,11 +56,27 @@ def build(root, repo, work):
             call = 'check_recovery(rep, "%s", seq, &|st| %s::%s::new().parse(st))' % (v["name"], v["name"], g["parser"])
         disp_all.append('    { let lens = LENS_%s; for_all(%s, if n == 0 { lens.0 } else { lens.1 }, &mut |seq: &[Tok]| { %s; }); }' % (v["grammar"].upper(), alpha, call))
         disp_one.append('        "%s" => { %s; }' % (v["name"], call))
+    lex_all, lex_one = [], []
+    for v in cfg.get("lexvariants", []):
+        shutil.copy(os.path.join(udir, "lexgrammars", v["name"] + ".lalrpop"), os.path.join(gdir, v["name"] + ".lalrpop"))
+        e = dict(env)
+        e.pop("LALRPOP_LANE_TABLE", None)
+        q = subprocess.run([lalrpop, "--force", "--level", "quiet", os.path.join(gdir, v["name"] + ".lalrpop")], cwd=gdir, env=e,
+                           capture_output=True, text=True, timeout=600)
+        if q.returncode != 0 or not os.path.exists(os.path.join(gdir, v["name"] + ".rs")):
+            return None, cfg, "lalrpop failed on lexer grammar %s: %s" % (v["name"], (q.stdout + q.stderr)[-600:])
+        mods.append('#[allow(warnings)] #[path = "gen/%s.rs"] mod %s;' % (v["name"], v["name"]))
+        call = 'check_lexer(rep, "%s", &%s(), text, &|log, t| %s::SParser::new().parse(log, t))' % (v["name"], v["spec"], v["name"])
+        lex_all.append('    for_all_text(LEX_ALPHA, if n == 0 { %d } else { %d }, &mut |text: &str| { %s; });' % (cfg["lex_len_quick"], cfg["lex_len_thorough"], call))
+        lex_one.append('        "%s" => { %s; }' % (v["name"], call))
     open(os.path.join(crate, "src", "generated_mods.rs"), "w").write("\n".join(mods) + "\n")
     lens = "\n".join("const LENS_%s: (usize, usize) = (%d, %d);" % (k.upper(), g["len_quick"], g["len_thorough"]) for k, g in cfg["grammars"].items())
     open(os.path.join(crate, "src", "generated_dispatch.rs"), "w").write(
         lens + "\n/// n == 0: quick bounds, otherwise thorough bounds\nfn run_all(rep: &mut Report, n: usize) {\n" + "\n".join(disp_all) +
         "\n}\nfn run_variant(rep: &mut Report, name: &str, seq: &[Tok]) {\n    match name {\n" + "\n".join(disp_one) +
+        '\n        _ => panic!("unknown variant"),\n    }\n}\n' +
+        "fn run_lex_all(rep: &mut Report, n: usize) {\n" + "\n".join(lex_all) + "\n}\n" +
+        "fn run_lex_variant(rep: &mut Report, name: &str, text: &str) {\n    match name {\n" + "\n".join(lex_one) +
         '\n        _ => panic!("unknown variant"),\n    }\n}\n')
     target = os.path.join(root, "work", "gen-target", "harness-" + _tag(repo))
     p = subprocess.run(["cargo", "build", "--offline"], cwd=crate, env=dict(env, CARGO_TARGET_DIR=target), capture_output=True, text=True, timeout=3600)
@@ -102,7 +118,7 @@ def run_gen_unit(root, repo, us, prop, tier, seed, work):
     r["evaluations"] = n
     r["distinct_nontrivial"] = n
     r["obligations"] = n
-    fails = re.findall(r"FAILING-INPUT: (variant=(\S+) prop=(C\d+) input=(\S*)(?: err@(\d+))? :: (.*))\nREPLAY-ARG: (.*)", out)
+    fails = re.findall(r"FAILING-INPUT: (variant=(\S+) prop=(C\d+) input=(.*?)(?: err@(\d+))? :: (.*))\nREPLAY-ARG: (.*)", out)
     for (full, variant, fprop, inp, erri, msg, rarg) in fails:
         r["failed"].append(dict(id="native/gen:%s:%s" % (variant, fprop), function=variant, message=full[:600], clause="",
                                 tags=[fprop], output=full, counterexample="variant %s, tokens [%s]%s" % (variant, inp, (", stream error at item %s" % erri) if erri else ""),
